@@ -39,6 +39,7 @@ typedef struct record {
     uint64_t lat_hash; int lat_nodes, lat_links, has_lat;
     long frames_searched; char cmn_after[400];
     long n_hmm_eval, n_sen_eval;   /* the search's own work counters for the utterance: a deterministic function of the utterance */
+    int hist_per_frame[1200]; int hist_nframes;   /* word exits recorded per frame */
 } record;
 
 static aent *g_ae; static int g_nae, g_capae;
@@ -85,6 +86,7 @@ static void record_get(decoder_t *d, record *rec, const vd_runinfo *info, int wa
     memset(rec, 0, sizeof(*rec));
     vd_result_get(d, &rec->res);
     rec->frames_searched = info->sum_ret + (info->nframes_after_end - info->nframes_before_end);
+    { fsg_history_t *hh = ((fsg_search_t *)d->search)->history; int q, ne = fsg_history_n_entries(hh); for (q = 1; q < ne; ++q) { fsg_hist_entry_t *he = fsg_history_entry_get(hh, q); int fr = fsg_hist_entry_frame(he); if (fr >= 0 && fr < 1200) { ++rec->hist_per_frame[fr]; if (fr >= rec->hist_nframes) rec->hist_nframes = fr + 1; } } }
     rec->n_hmm_eval = ((fsg_search_t *)d->search)->n_hmm_eval; rec->n_sen_eval = ((fsg_search_t *)d->search)->n_sen_eval;
     vh_ctx("decoder_alignment");
     al = decoder_alignment(d);
@@ -98,8 +100,10 @@ static void record_free(record *r) { vd_result_free(&r->res); free(r->ae); r->ae
 static int record_equal(const record *a, const record *b, int with_cmn, char *why, size_t n)
 {
     if (!vd_result_equal(&a->res, &b->res, why, n)) return 0;
-    if (a->n_hmm_eval != b->n_hmm_eval || a->n_sen_eval != b->n_sen_eval) { snprintf(why, n, "same result, but the search evaluated %ld HMMs / %ld senones vs %ld / %ld for the same utterance (pruning state differs)", a->n_hmm_eval, a->n_sen_eval, b->n_hmm_eval, b->n_sen_eval); return 0; }
     if (a->frames_searched != b->frames_searched) { snprintf(why, n, "frames searched %ld vs %ld", a->frames_searched, b->frames_searched); return 0; }
+    if (a->n_hmm_eval != b->n_hmm_eval || a->n_sen_eval != b->n_sen_eval || memcmp(a->hist_per_frame, b->hist_per_frame, sizeof(a->hist_per_frame))) {
+        int q, fd = -1; for (q = 0; q < 1200; ++q) if (a->hist_per_frame[q] != b->hist_per_frame[q]) { fd = q; break; }
+        snprintf(why, n, "same result, but the search evaluated %ld HMMs / %ld senones vs %ld / %ld for the same utterance; first frame with a different number of word exits: %d (%d vs %d)", a->n_hmm_eval, a->n_sen_eval, b->n_hmm_eval, b->n_sen_eval, fd, fd >= 0 ? a->hist_per_frame[fd] : 0, fd >= 0 ? b->hist_per_frame[fd] : 0); return 0; }
     if (a->has_align != b->has_align) { snprintf(why, n, "alignment %s vs %s", a->has_align ? "present" : "NULL", b->has_align ? "present" : "NULL"); return 0; }
     if (a->has_align && a->nae == b->nae && a->align_hash != b->align_hash) {
         int q; static const char *ln[] = { "word", "phone", "state" };
@@ -184,6 +188,7 @@ static void run_c07(long i, vh_rng *r)
         if (p.style == 3 && a.n > 30000) p.style = 2;
         vd_pattern_desc(&p, pdesc, sizeof(pdesc)); pattern_class(&p, pcls, sizeof(pcls));
         vh_rng_init(&pr, vh_seed + 77, (uint64_t)(i * 16 + v));
+        vh_note("  variant %d: %s", v, pdesc);
         decoder_set_cmn(d, CMN0);
         if (vd_run(d, &a, r, &p, poke, &pr, &info) != 0) { vh_viol(vh_path("utterance_call_failed|%s", pcls), "variant run failed (%s)", pdesc); continue; }
         record_get(d, &got, &info, 0);
